@@ -44,7 +44,8 @@ class DMCase:
         dm = dm or s.dm
         with symnp.session():
             dm._force_constants = fc
-            out = run_dynamical_matrix_solver_c(dm, np.array(qpoints, dtype="double"), nac_q_direction=nac_q_direction, is_nac=is_nac)
+            qp = qpoints if symnp.is_symarr(qpoints) else np.array(qpoints, dtype="double")
+            out = run_dynamical_matrix_solver_c(dm, qp, nac_q_direction=nac_q_direction, is_nac=is_nac)
         return out
 
     def D_py(s, fc, q, dm=None):
